@@ -217,6 +217,10 @@ pub fn point(label: &'static str) {
 /// Wait (as a modelled blocking operation) until `cond` holds. `cond` is evaluated by the calling
 /// thread while it holds the baton; it must not block.
 pub fn block_until(label: &'static str, cond: &mut dyn FnMut() -> bool) {
+    // The code the caller ran before its first (failed) check counts as progress for the other
+    // threads' conditions; a mere re-check after a wake-up does not (otherwise two blocked
+    // threads would keep re-enabling each other and a deadlock would never be detected).
+    let mut first = true;
     loop {
         if cond() {
             return;
@@ -236,6 +240,10 @@ pub fn block_until(label: &'static str, cond: &mut dyn FnMut() -> bool) {
             drop(g);
             std::thread::yield_now();
             continue;
+        }
+        if first {
+            s.progress += 1;
+            first = false;
         }
         s.threads[me].status = Status::Yielded(s.progress);
         s.threads[me].wait_label = label;
@@ -581,6 +589,57 @@ pub fn explore(cfg: &Config, roots: Vec<Vec<u8>>, body: &(dyn Fn() -> String + S
         }
     }
     stats
+}
+
+/// Shard `shard` of `nshards` of the same DFS: the root execution's alternatives (disjoint
+/// subtrees) are dealt round-robin; shard 0 also reports the root execution itself.
+pub fn explore_sharded(
+    cfg: &Config,
+    shard: usize,
+    nshards: usize,
+    body: &(dyn Fn() -> String + Sync),
+    mut on_result: impl FnMut(&ExecResult),
+) -> Stats {
+    let mut stats = Stats::default();
+    let r = run_one(cfg, &[], body);
+    if shard == 0 {
+        stats.executions += 1;
+        stats.steps += r.steps;
+        stats.max_choice_points = r.choices.len();
+        on_result(&r);
+    }
+    let mut cost = 0_usize;
+    let mut alts: Vec<Vec<u8>> = Vec::new();
+    for (i, c) in r.choices.iter().enumerate() {
+        for alt in 1..c.enabled {
+            if cost + usize::from(c.current_enabled) <= cfg.preemption_bound {
+                let mut p: Vec<u8> = r.choices[..i].iter().map(|x| x.chosen).collect();
+                p.push(alt);
+                alts.push(p);
+            }
+        }
+        if c.current_enabled && c.chosen != 0 {
+            cost += 1;
+        }
+    }
+    let mine: Vec<Vec<u8>> = alts.into_iter().enumerate().filter(|(i, _)| i % nshards.max(1) == shard).map(|(_, p)| p).collect();
+    if !mine.is_empty() {
+        let st = explore(cfg, mine, body, on_result);
+        stats.executions += st.executions;
+        stats.steps += st.steps;
+        stats.max_choice_points = stats.max_choice_points.max(st.max_choice_points);
+        stats.capped |= st.capped;
+    }
+    stats
+}
+
+/// Has the controlled thread `id` finished (body and, for harness threads, TLS destructors)?
+pub fn thread_finished(id: usize) -> bool {
+    let g = lock();
+    match g.as_ref() {
+        Some(s) => id < s.threads.len() && matches!(s.threads[id].status, Status::Finished),
+        None => true,
+    }
 }
 
 /// Determinism proof obligation: the same schedule must give the same trace and observation twice.
